@@ -25,7 +25,7 @@ func init() {
 		ID:    "C13",
 		Title: "Math and global utility functions honour ES5 15.8 and 15.1",
 		Rule: "Math: every ES5 Math function x every tuple over the boundary set S (IEEE specials and neighbours) united with non-number values that exercise ToNumber " +
-			"(unary x S, pow/atan2 x S^2, every function x a lattice of kind extremes carried in every Number representation otto has - int32 from bitwise operators, uint32 from >>>, int/int64/uint16 from built-ins and literals, float64 from arithmetic, Go int8..uint64/float32/float64 from the embedder -  max/min arity 0..3 over a 14-value subset, round/floor/ceil over the neighbours of k and k+-0.5); a case is non-trivial when a 15.8.2 bullet or an exact definition fixes its result " +
+			"(unary x S, pow/atan2 x S^2, every function x a lattice of kind extremes carried in every Number representation otto has - int32 from bitwise operators, uint32 from >>>, int/int64/uint16 from built-ins and literals, float64 from arithmetic, Go int8..uint64/float32/float64 from the embedder -  max/min arity 0..3 over a 14-value subset, round/floor/ceil over the neighbours of k and k+-0.5; every function that is defined on subnormals x the subnormal lattice - MIN_VALUE, every 2^-k for k = 1021..1074 with predecessor, successor and 3*2^-k, largest subnormal, smallest normal - in both signs); a case is non-trivial when a 15.8.2 bullet or an exact definition fixes its result " +
 			"(otherwise only the tolerance laws apply). URI: every code-unit string up to the stated length over the 42-unit alphabet (the 30 units of the design plus 12 UTF-8 / %uXXXX / surrogate-range boundary units) for the encoders/escape (both string representations: UTF-16 payload from String.fromCharCode and Go-string payload) plus the source-literal route, " +
 			"every sequence of decode units (literals, %XX escapes, broken escapes) for the decoders and unescape; a case is non-trivial when the input contains at least one unit the function must transform or reject. " +
 			"Cases are distinct by key (function + argument labels / code units).",
@@ -50,7 +50,7 @@ func init() {
 		Assumptions: []string{
 			"ref/mathspec is a faithful transcription of the bullets of ES5.1 15.8.2 (self-check: bullets that apply to the same tuple must agree, exact definitions must agree with bullets)",
 			"ref/uri is a faithful transcription of ES5.1 15.1.3 Encode/Decode and B.2.1/B.2.2 (self-check: model decode(encode(s)) = s, unescape(escape(s)) = s on every enumerated string)",
-			"tolerance laws assume an implementation within 1 ulp of the mathematical function on normal-range arguments (ES5: implementation-dependent approximation); subnormal arguments are only held to the special-case table",
+			"tolerance laws assume an implementation within 1 ulp of the mathematical function on normal-range arguments (ES5: implementation-dependent approximation); subnormal arguments are held to the special-case table there and, in the edges family, to the 320-bit reference (log, exp, pow; 2 ulp), the correctly rounded sqrt and the small-argument identities f(x) = x / 1 / pi/2 (sin, tan, asin, atan, atan2(x,1), pow(x,1), cos, acos; 1 ulp) on the whole subnormal lattice 2^-1074..2^-1021 with neighbours, both signs",
 			"ToNumber of the non-number argument values is a trusted table (ES5 9.3); inputs reach the built-ins as otto Values (numbers via otto.ToValue(float64), strings with lone surrogates via String.fromCharCode), results are read back as IEEE bits / UTF-16 code units",
 			"ES2015+ extensions of Math present in otto (acosh, cbrt, trunc, ...) are outside ES5 15.8 and are not checked",
 		},
